@@ -485,6 +485,27 @@ def eval_url(ctx, case):
         if e is not None or not same_params(r, want):
             ctx.fail(clause, case, {'url': url, 'query': getattr(ref, 'query', None), 'kwargs': kw,
                                     'got': r, 'exc': e, 'want': want, 'oracle': src})
+    # call history: what a caller does to a returned dict must not show in later answers, neither on the
+    # same result object nor on a fresh urlsplit() of the same URL
+    for kw, want in (({}, want_last), ({'collapse': False}, want_all)):
+        ctx.clause('params-history-independent')
+        try:
+            r1 = got.params(**kw)
+            if isinstance(r1, dict):
+                for k in list(r1)[:1]:
+                    if isinstance(r1[k], list):
+                        r1[k].append('edited-by-caller')
+                    else:
+                        r1.pop(k)
+                r1['added-by-caller'] = 'x'
+            r2 = got.params(**kw)
+            r3 = netutils.urlsplit(url, *args, **kwargs).params(**kw)
+            e = None
+        except BaseException as ex:  # noqa
+            r2, r3, e = None, None, ex
+        if e is not None or not same_params(r2, want) or not same_params(r3, want):
+            ctx.fail('params-history-independent', case, {'url': url, 'kwargs': kw, 'second_call': r2,
+                                                          'fresh_urlsplit': r3, 'exc': e, 'want': want})
 
 
 EVAL = {'eui': eval_eui, 'eui-inv': eval_eui_inv, 'eui-lit': eval_eui_lit, 'eui-bad': eval_eui_bad,
